@@ -1,6 +1,6 @@
 (* C07 -- matrices and vectors survive a save/load round trip in every format.
    Statements only; proofs are in Maths/*Proofs.v. *)
-From OM Require Import Base.Lists Maths.BinCodec Maths.BinCodecProofs.
+From OM Require Import Base.Lists Maths.BinCodec Maths.BinCodecProofs Maths.AsciiCodec Maths.IOFront Maths.IOFrontProofs.
 Local Open Scope Z_scope.
 
 (* binary: an object whose shape the size test can identify decodes to itself, bit for bit *)
@@ -38,3 +38,18 @@ Proof.
   unfold wf, word. rewrite W32_val, W64_val. cbn [sorted_keys fst snd]. repeat split; try lia; try reflexivity.
   repeat (constructor; [cbn [fst snd]; lia|]). constructor.
 Qed.
+
+(* front end with the explicit stream state: ReadTag leaves a good stream at offset 0 for every file length, so
+   save-then-load through a ".bin" name returns the object also for files below the 32-byte tag (a Vector of 3 is
+   28 bytes).  Refuted on the pinned tree (witness confirmed on the code, then repaired: fix commit 6ea0b72). *)
+Theorem read_tag_restores_stream : forall bs, snd (read_tag bs) = {| s_pos := 0; s_fail := false |}.
+Proof. exact IOFrontProofs.read_tag_stream. Qed.
+Print Assumptions read_tag_restores_stream.
+
+Theorem small_file_roundtrip : forall order o ls a,
+  wf o -> ~ ambiguous o -> load order 0 (kind_of o) {| f_bytes := encode o; f_lines := ls; f_ascii := a |} = Ok o.
+Proof. exact IOFrontProofs.small_file_roundtrip. Qed.
+Print Assumptions small_file_roundtrip.
+
+Example small_file_ex : (length (encode (OVec [1; 2; 3]%Z)) < 32)%nat /\ wf (OVec [1; 2; 3]%Z).
+Proof. split; [vm_compute; lia|]. unfold wf, word. rewrite W32_val, W64_val. split; [cbn; lia|]. repeat constructor; lia. Qed.
